@@ -19,6 +19,7 @@ class SourceMap:
     def __init__(self, root='/repo', overlay=None):
         self.root = root
         self.files = {}
+        self._m2r = None
         self._trees = {}
         self.unparsable = {}
         base = os.path.join(root, PKG)
@@ -41,6 +42,7 @@ class SourceMap:
         sm.files = dict(self.files)
         sm.files.update(overlay)
         sm._trees = {k: v for k, v in self._trees.items() if k not in overlay}
+        sm._m2r = None
         sm.unparsable = dict(self.unparsable)
         return sm
 
@@ -88,7 +90,9 @@ class SourceMap:
         return m
 
     def mod2rel(self):
-        return {self.modname(r): r for r in self.files}
+        if getattr(self, '_m2r', None) is None or len(self._m2r) != len(self.files):
+            self._m2r = {self.modname(r): r for r in self.files}
+        return self._m2r
 
     def resolve_import(self, rel, level, module):
         cur = self.modname(rel).split('.')
